@@ -81,6 +81,18 @@ class Runner:
                         dict(case, other=other[1])))
         self.by_hash.setdefault(h, (key, case))
         self.by_key.setdefault(key, (h, case))
+        # serialising the message does not change it ...
+        try:
+            m.to_json()
+        except Exception:
+            pass
+        if m.hash != h:
+            out.append(("C17|hash-changed-by-to_json", f"hash {h} became {m.hash!r} after to_json()", case))
+        # ... and the caller owns what it was handed: it tags the message and renumbers a key field
+        m.hash = "tagged by the caller"
+        for fld in m.fields:
+            if fld.part_of_primary_key:
+                fld.raw_value, fld.value = 250, 250
         return out
 
 
@@ -158,8 +170,9 @@ def _work(ctx: Ctx, item):
                             ctx.klass("rejected")
                             continue
                         ctx.klass("hashed:" + rel)
+                        h0 = m.hash
                         out += R.observe(target, m, dict(case, source=s, priority=pr, destination=de, decoder=di))
-                        seen.append(m.hash)
+                        seen.append(h0)
                 m0 = R.decode(R.off, d, payload, nbytes, src, dest, prio)
                 ctx.count()
                 if m0 is not None and m0.hash is not None:
